@@ -176,6 +176,51 @@ theorem C18_any_byte_change_invalid {Key : Type} (M : IdealMAC Key Bytes) (k : K
 example : IdealMAC.bytes.verify 5 [1, 2] ((IdealMAC.bytes.mac 5 [1, 2]).set 2 (2 ^^^ 0x80)) = false
     ∧ IdealMAC.bytes.verify 5 [1, 2] (IdealMAC.bytes.mac 5 [1, 2]) = true := by decide
 
+/-! ### the sender's address as the server prints it
+
+`serverHandshake` binds the cookie to `c.remoteAddr.String()` (pinned in `C18_facts`:
+`cookieLoopHvrCond`, `cookieLoopIssue`); for the `*net.UDPAddr` values the net package reports
+that text is the printed host, a colon and the decimal port (`hostPort`; the driver compares it
+with `RemoteAddr().String()` of the real connection for every UDP peer it makes). -/
+
+/-- The HMAC input determines the printed host **and the port** of the sender, and the
+parameters: a cookie issued to host:p1 is not the cookie of host:p2, nor of another host with the
+same port, whatever the hello. -/
+theorem C18_binding_endpoint (h h' : Bytes) (p p' : Nat) (x x' : Bytes)
+    (la : (hostPort h p).length < 65536) (la' : (hostPort h' p').length < 65536)
+    (e : cookieInput (hostPort h p) x = cookieInput (hostPort h' p') x') : h = h' ∧ p = p' ∧ x = x' := by
+  obtain ⟨ea, ex⟩ := C18_binding _ _ _ _ la la' e
+  obtain ⟨eh, ep⟩ := hostPort_inj ea
+  exact ⟨eh, ep, ex⟩
+
+/-- … hence, with an ideal MAC, the cookie issued to endpoint (h, p) verifies at endpoint (h', p')
+exactly when secret, host, port and all covered parameters are the same. -/
+theorem C18_accept_iff_endpoint {Key Tag : Type} (M : IdealMAC Key Tag) (k k' : Key) (h h' : Bytes) (p p' : Nat)
+    (m m' : Hello) (w : m.WF) (w' : m'.WF)
+    (la : (hostPort h p).length < 65536) (la' : (hostPort h' p').length < 65536) :
+    M.verify k' (cookieInput (hostPort h' p') (marshal m')) (M.mac k (cookieInput (hostPort h p) (marshal m))) = true
+      ↔ (k' = k ∧ h' = h ∧ p' = p ∧ m' = m) := by
+  rw [C18_accept_iff M k k' _ _ m m' w w' la la']
+  constructor
+  · rintro ⟨hk, ha, hm⟩
+    obtain ⟨eh, ep⟩ := hostPort_inj ha
+    exact ⟨hk, eh, ep, hm⟩
+  · rintro ⟨rfl, rfl, rfl, rfl⟩; exact ⟨rfl, rfl, rfl⟩
+
+-- "192.0.2.7", ports 40001 / 40002 / 4000; the printed text and what it is split back into
+def host7 : Bytes := [0x31, 0x39, 0x32, 0x2e, 0x30, 0x2e, 0x32, 0x2e, 0x37]
+example : hostPort host7 40001 = host7 ++ [0x3a, 0x34, 0x30, 0x30, 0x30, 0x31]
+    ∧ splitHostPort (host7 ++ [0x3a, 0x34, 0x30, 0x30, 0x30, 0x31]) = some (host7, 40001)
+    ∧ cookieInput (hostPort host7 40001) (marshal helloA) ≠ cookieInput (hostPort host7 40002) (marshal helloA)
+    ∧ cookieInput (hostPort host7 4000) (marshal helloA) ≠ cookieInput (hostPort host7 40001) (marshal helloA)
+    ∧ (IdealMAC.free Bytes).verify [9] (cookieInput (hostPort host7 40002) (marshal helloA))
+        ((IdealMAC.free Bytes).mac [9] (cookieInput (hostPort host7 40001) (marshal helloA))) = false := by
+  have d1 : dec 40001 = [0x34, 0x30, 0x30, 0x30, 0x31] := by simp [dec, b8]
+  have d2 : dec 40002 = [0x34, 0x30, 0x30, 0x30, 0x32] := by simp [dec, b8]
+  have d3 : dec 4000 = [0x34, 0x30, 0x30, 0x30] := by simp [dec, b8]
+  simp only [hostPort, d1, d2, d3]
+  decide
+
 /-! ### no amplification -/
 
 /-- The HelloVerifyRequest datagram (record header + handshake header + version + cookie
@@ -332,6 +377,32 @@ example : (effectiveSecret [] [] [1, 2, 3]).1 = [1, 2, 3]
     ∧ (effectiveSecret [] (effectiveSecret [] [] [1, 2, 3]).2 [4, 5, 6]).1 = [1, 2, 3]
     ∧ (effectiveSecret [7] [] [1, 2, 3]).1 = [7] := by decide
 
+/-- The per-connection secret is read with `io.ReadFull` (pinned in `C18_facts`:
+`cookieSecretFromConfigRand` is the call `io.ReadFull(c.config.rand(), c.cookieSecret)` on a
+buffer of `cookieSecretLen` bytes): however short the reads of `Config.Rand` are (each at least
+one byte), the secret is the first `cookieSecretLen` bytes the source produces — all of them
+random, at least the 16 the documentation of `CookieSecret` asks for — so two connections whose
+sources differ anywhere in those bytes use different secrets. -/
+theorem C18_secret_full_draw (s s' : Bytes) (chunks chunks' : List Nat)
+    (hc : Facts.dtlcp.cookieSecretLen ≤ chunks.length) (hc' : Facts.dtlcp.cookieSecretLen ≤ chunks'.length) :
+    drawSecret Facts.dtlcp.cookieSecretLen s chunks = s.take Facts.dtlcp.cookieSecretLen
+    ∧ (Facts.dtlcp.cookieSecretLen ≤ s.length → (drawSecret Facts.dtlcp.cookieSecretLen s chunks).length = Facts.dtlcp.cookieSecretLen)
+    ∧ (s.take Facts.dtlcp.cookieSecretLen ≠ s'.take Facts.dtlcp.cookieSecretLen →
+        drawSecret Facts.dtlcp.cookieSecretLen s chunks ≠ drawSecret Facts.dtlcp.cookieSecretLen s' chunks')
+    ∧ 16 ≤ Facts.dtlcp.cookieSecretLen ∧ Facts.dtlcp.cookieSecretFromConfigRand = true := by
+  have hd : ∀ (t : Bytes) (cs : List Nat), Facts.dtlcp.cookieSecretLen ≤ cs.length →
+      drawSecret Facts.dtlcp.cookieSecretLen t cs = t.take Facts.dtlcp.cookieSecretLen := by
+    intro t cs h
+    simp [drawSecret, effectiveSecret, readFull_eq_take cs t _ h]
+  refine ⟨hd s chunks hc, ?_, ?_, by decide, by decide⟩
+  · intro hl; rw [hd s chunks hc, List.length_take]; omega
+  · intro hne; rw [hd s chunks hc, hd s' chunks' hc']; exact hne
+
+/-- one byte per Read, 32 reads: the whole secret comes from the source -/
+example : drawSecret 4 [1, 2, 3, 4, 5, 6] [1, 1, 1, 1] = [1, 2, 3, 4]
+    ∧ drawSecret 4 [1, 2, 3, 4, 5, 6] [3, 0, 7] = [1, 2, 3, 4]
+    ∧ drawSecret 4 [1, 2, 3, 4, 5, 6] [64] = [1, 2, 3, 4] := by decide
+
 /-! ### the same statements about the SOURCE TEXT
 
 `Gotlcp.Src.dtlcp.{clientHelloMsg.marshalForCookie, generateCookie, verifyCookie}` are regenerated
@@ -388,9 +459,21 @@ theorem C18_src_accept_iff (ext : Go.Extern)
       rw [tie_marshalForCookie, tie_marshalForCookie, hm]
     rw [this]
 
+open Gotlcp.Tie.Cookie in
+/-- The translated `generateCookie`, fed the printed endpoint host:port as `serverHandshake` does
+(`c.remoteAddr.String()`), authenticates a byte string that determines host and port. -/
+theorem C18_src_binding_endpoint (a a' x x' : BV) (h h' : Bytes) (p p' : Nat)
+    (ha : toBytes a = hostPort h p) (ha' : toBytes a' = hostPort h' p')
+    (la : a.length < 65536) (la' : a'.length < 65536)
+    (e : srcCookieInput a x = srcCookieInput a' x') : h = h' ∧ p = p' ∧ x = x' := by
+  obtain ⟨ea, ex⟩ := C18_src_binding a a' x x' la la' e
+  have : hostPort h p = hostPort h' p' := by rw [← ha, ← ha', ea]
+  obtain ⟨eh, ep⟩ := hostPort_inj this
+  exact ⟨eh, ep, ex⟩
+
 /-- non-vacuity: the translated code evaluated by the kernel on a concrete hello and address, with
 "tag = key ‖ input" as the keyed hash -/
-def exExt : Go.Extern := ⟨fun k x => k ++ x⟩
+def exExt : Go.Extern := ⟨fun _ k x => k ++ x⟩
 def exSrcHello : Src.dtlcp.clientHelloMsg :=
   { vers := 0x0101#16, random := List.replicate 32 (7#8), sessionId := [1#8],
     cipherSuites := [0xe013#16, 0xe011#16], compressionMethods := [0#8] }
